@@ -303,6 +303,14 @@ DEPS = {'set_preds', 'set_succs', 'lshift', 'rshift', 'pred_append', 'pred_remov
         'succ_remove', 'pred_remove_all', 'succ_remove_all', 'list_lshift', 'list_rshift'}
 
 
+def _flat(x):
+    for y in x:
+        if isinstance(y, (list, tuple)):
+            yield from _flat(y)
+        else:
+            yield y
+
+
 def _matches(pre, exp, real):
     """Does the real post-state equal the documented one?  Children / roots as sequences;
     dependency lists as multisets when the call changes them, untouched lists identical."""
@@ -418,12 +426,14 @@ def run_history(case, skip=None):
     polluted = False      # an invariant broke earlier: the model's predictions are no longer trusted,
     seen_sigs = set()     # only the invariants and the C15 snapshot comparison go on (max_after more steps)
     after_pollution = 0
-    for raw in case['ops']:
+    queue = list(case['ops'])
+    while queue:
+        raw = queue.pop(0)
         raw = tuple(tuple(x) if isinstance(x, list) else x for x in raw)
         attrs = world.attrs()
         if polluted:
             after_pollution += 1
-            if after_pollution > 6:
+            if after_pollution > 8:
                 break
             try:
                 cop, eff = resolve(raw, g, nw, attrs)
@@ -530,6 +540,13 @@ def run_history(case, skip=None):
                         rep.flags['subtree-move'] += 1
             elif eff.cls == CLASH:
                 rep.viol.append(('C05', 'C05:duplicate-id-accepted:' + sigtail, desc))
+        # ---- WBS.remove(t) answered True: whatever the state was, t and its subtree are out of that WBS and ownerless
+        if exc is None and kind == 'wbs_remove' and ret is True:
+            t_, w_ = cop[2], cop[1]
+            still = [x for x in post.subtree(t_) if post.owner[x] == w_ or x in post.members(w_)]
+            if still:
+                rep.viol.append(('C11', 'C11:task-still-owned-or-listed-after-WBS.remove-returned-True' +
+                                 ('[after-earlier-violation]' if polluted else ''), dict(desc, tasks=still)))
         # ---- invariants on the real state, whether the call returned or raised
         for clause in graph.invariants(post):
             rep.viol.append((clause[:3], '%s:after:%s' % (clause, sigtail), desc))
@@ -569,11 +586,24 @@ def run_history(case, skip=None):
                 key = v_[1].split(':after:')[0]
                 if key not in seen_sigs:
                     seen_sigs.add(key)
-                    kept.append((v_[0], v_[1] + '[after-earlier-violation]', v_[2]))
+                    kept.append((v_[0], v_[1] if v_[1].endswith('[after-earlier-violation]') else v_[1] + '[after-earlier-violation]', v_[2]))
             rep.viol[nviol_before:] = kept
         elif any(p in ('C01', 'C05', 'C11') for p, _, _ in rep.viol):
             polluted = True
             rep.cut = True
+            # probe what C11 promises about removal, on the tasks the offending call named: remove each from the WBS
+            # it reports, then attach it to another WBS (executed like any other step, invariants only)
+            named = [x for x in _flat(cop[1:]) if isinstance(x, int) and not isinstance(x, bool) and 0 <= x < post.n][:2]
+            probes = []
+            for t in named:
+                w = post.owner[t] if post.owner[t] is not None and post.owner[t] >= 0 else post.wbs_of(t)
+                if w is not None:
+                    others = [x for x in post.members(w) if x != t and x not in post.subtree(t) and t not in post.subtree(x)]
+                    if others:
+                        probes.append(('set_parent', t, others[0], ''))      # an ordinary move in between
+                    probes.append(('wbs_remove', w, t, ''))
+                    probes.append(('append', -((w + 1) % nw) - 1, t, ''))
+            queue = probes + queue[:3]
             for v_ in rep.viol:
                 seen_sigs.add(v_[1].split(':after:')[0])
     rep.final = g
